@@ -122,6 +122,16 @@ def main(argv=None):
             return 1
         print('not reproduced: file is structurally valid')
         return 0
+    if kind == 'compo-c10':
+        from . import deck as dk
+        from .props import c10
+        deck = dk.from_json(case['deck_model'])
+        pbs = c10.composition_problems(deck, t4, lambda tok: dk.fortran_value(tok), None)
+        if pbs:
+            print('REPRODUCED: ' + '; '.join(pbs[:4]))
+            return 1
+        print('not reproduced: compositions match the material cards')
+        return 0
     if kind == 'compo-spelling':
         from . import deck as dk
         from .props import c09
